@@ -39,6 +39,7 @@ func runC06(p *Program, r *Report) {
 	checkMadeProofIsFilled(p, r, "R06f", entries)
 	checkEmptyRootRestored(p, r, "R06h")
 	checkEmptyRootByGeometry(p, r, "R06i")
+	checkBothLayoutsReindex(p, r, "R06k")
 	r.Rule("R06j", "EXISTENCE-TEST-IS-STRICT: every comparison of a row-0 position with the leaf count inside the reviewed existence test is strict (the deletion-undo decides with it whether a subtree climbed)")
 	checkExistenceTestStrict(p, r, "R06j")
 }
@@ -1182,4 +1183,146 @@ func sameArith(a, b ssa.Value) bool {
 		return sameArith(cx.X, cy.X)
 	}
 	return false
+}
+
+// ---------------------------------------------------------------------------
+// R06k BOTH-LAYOUTS-RE-INDEX. The map forest works in one of two layouts,
+// decided by the test TreeRows(NumLeaves) != TotalRows, and the undo code
+// branches on it to translate positions. The leaf index is written for the
+// re-instated targets under a flag; the flag must be settable whichever way
+// the layout test goes. If every assignment of true to the flag lies under
+// the "layouts differ" edge (the other branch was dropped in a tidy-up), a
+// forest that allocates exactly the rows it needs never re-indexes an
+// undeleted leaf.
+
+func checkBothLayoutsReindex(p *Program, r *Report, rule string) {
+	r.Rule(rule, "BOTH-LAYOUTS-RE-INDEX: a flag under which the map forest's undo writes the leaf index can become true on both sides of the layout test TreeRows(NumLeaves) != TotalRows")
+	undo := p.Func("(*MapPollard).Undo")
+	rowsFn := p.Func("TreeRows")
+	if undo == nil || rowsFn == nil {
+		r.MissingAnchor(rule, "(*MapPollard).Undo / TreeRows", "undo entry or row function not found")
+		return
+	}
+	isLayoutTest := func(v ssa.Value) bool {
+		bo, ok := v.(*ssa.BinOp)
+		if !ok || (bo.Op != token.NEQ && bo.Op != token.EQL) {
+			return false
+		}
+		isRows := func(x ssa.Value) bool {
+			c, ok := x.(*ssa.Call)
+			return ok && c.Common().StaticCallee() == rowsFn
+		}
+		isTotal := func(x ssa.Value) bool {
+			_, f, ok := fieldRead(x)
+			return ok && f == "TotalRows"
+		}
+		return (isRows(bo.X) && isTotal(bo.Y)) || (isRows(bo.Y) && isTotal(bo.X))
+	}
+	reach := p.StaticReach(undo)
+	reach[undo] = true
+	n := 0
+	for _, g := range sortedFuncs(p, reach) {
+		if g.Blocks == nil {
+			continue
+		}
+		idx := 0
+		for _, b := range g.Blocks {
+			for _, in := range b.Instrs {
+				k, m, _ := storeCall(p, in)
+				if k != "index" || m != "Put" {
+					continue
+				}
+				// the flag guarding the write: a phi among the guards, or the result of a helper that computes one
+				for _, gd := range guardsAt(b) {
+					if !gd.Truth {
+						continue
+					}
+					type flagAt struct {
+						fn *ssa.Function
+						ph *ssa.Phi
+					}
+					var flags []flagAt
+					switch x := gd.Cond.(type) {
+					case *ssa.Phi:
+						flags = append(flags, flagAt{g, x})
+					case *ssa.Call:
+						if h := x.Common().StaticCallee(); h != nil && p.owns(h) && h.Blocks != nil {
+							for _, ret := range returnsOf(h) {
+								for _, rv := range ret.Results {
+									if ph, ok := rv.(*ssa.Phi); ok && types.Identical(ph.Type(), types.Typ[types.Bool]) {
+										flags = append(flags, flagAt{h, ph})
+									}
+								}
+							}
+						}
+					}
+					for _, fl := range flags {
+						bad, nsrc := layoutOneSided(p, fl.fn, fl.ph, isLayoutTest)
+						if nsrc == 0 {
+							continue
+						}
+						idx++
+						n++
+						key := fmt.Sprintf("%s/index-put#%d/both-layouts", p.FuncName(g), idx)
+						if bad != "" {
+							r.Violate(rule, key, posOf(p, in), bad+": on the other layout the flag is never set, so the leaves this undo re-instates are not written back to the leaf index (they are in the forest, and look-ups and Prove do not find them)", "in "+p.FuncName(g))
+						} else {
+							r.Discharge(rule, key, posOf(p, in), "the flag guarding this index write can become true on both sides of every layout test", true)
+						}
+					}
+				}
+			}
+		}
+	}
+	r.Floor(rule, "flag-guarded leaf-index writes in the map forest's undo", n, 1)
+}
+
+// layoutOneSided: the blocks from which the constant true flows into the flag
+// ph of fn all lie under one edge of a layout test of fn. Returns the
+// description of that edge ("" when there is none) and the number of sources.
+func layoutOneSided(p *Program, fn *ssa.Function, ph *ssa.Phi, isLayoutTest func(ssa.Value) bool) (string, int) {
+	var sources []*ssa.BasicBlock
+	seen := map[*ssa.Phi]bool{}
+	var collect func(q *ssa.Phi)
+	collect = func(q *ssa.Phi) {
+		if seen[q] {
+			return
+		}
+		seen[q] = true
+		for i, e := range q.Edges {
+			switch x := e.(type) {
+			case *ssa.Const:
+				if x.Value != nil && x.Value.String() == "true" && i < len(q.Block().Preds) {
+					sources = append(sources, q.Block().Preds[i])
+				}
+			case *ssa.Phi:
+				collect(x)
+			}
+		}
+	}
+	collect(ph)
+	if len(sources) == 0 {
+		return "", 0
+	}
+	for _, tb := range fn.Blocks {
+		iff, ok := tb.Instrs[len(tb.Instrs)-1].(*ssa.If)
+		if !ok || !isLayoutTest(iff.Cond) {
+			continue
+		}
+		for si, succ := range tb.Succs {
+			if len(succ.Preds) != 1 {
+				continue
+			}
+			all := true
+			for _, sb := range sources {
+				if !(succ == sb || succ.Dominates(sb)) {
+					all = false
+				}
+			}
+			if all {
+				return fmt.Sprintf("every assignment of true to the flag lies under the %s edge of the layout test at %s", map[int]string{0: "true", 1: "false"}[si], posOf(p, iff)), len(sources)
+			}
+		}
+	}
+	return "", len(sources)
 }
